@@ -72,7 +72,7 @@ def generate(seed, tier, index):
     if rng.random() < 0.2:
         # programs write arbitrary bytes to stderr: a few undecodable ones must still display the same in all three modes
         from .. import faults as F
-        cfg['byte_faults'] = F.gen_faults(rng, rng.randint(1, 3), ['badutf8', 'badutf8', 'flip', 'nul', 'cr', 'cr'])
+        cfg['byte_faults'] = F.gen_faults(rng, rng.randint(1, 3), ['badutf8', 'badutf8', 'flip', 'nul', 'cr', 'cr', 'bom'])
     if tier == 'thorough' and index < 8:
         cfg['calibrate_real_child'] = True       # stub fidelity: the same stream through a real `main.py -r` with a real child
         cfg['prog'] = ['prog']
